@@ -497,7 +497,7 @@ def run(ctx) -> Result:
     ]
     rng = ctx.rng
     batch: list = []
-    n_script = 3000 if ctx.thorough else 500
+    n_script = 15000 if ctx.thorough else 500
     corpus_dir = common.CORPUS_DIR / PID
     cases = [json.loads(p.read_text())["case"] for p in sorted(corpus_dir.glob("*.json"))] if corpus_dir.is_dir() else []
     cases += [scripted_case(rng) for _ in range(n_script)]
